@@ -16,7 +16,11 @@ claim("C08",
       "Static, all 81 types and all paths: symbolic evaluation of every len method into a linear form compared with the per-kind length terms (exact for integer/address/name/character-string kinds, upper bound for blobs), name terms measured at the accumulated offset with the RFC 1035 compress flag; running offset threaded through msgLenWithCompressionMap; Pack buffer = uncompressed length + 1, reused iff large enough; Len/PackBuffer share the compression gate; simulated compression obeys the 1<<14 limit; escapedNameLen subtract/skip pairing. Numeric equality of simulated vs real compression and bitmap arithmetic are not decided.",
       STATIC_NOTE, "symbolic linear-form evaluation of len bodies (AST) against kind table; SSA guards")
 
+claim("C17",
+      "Static: NSEC3.Cover/Match decided for all 13 orderings of (name hash, owner hash, next hash) by abstract interpretation of the CFG over the finite ordering domain, plus zone guards; case-independence and digest-input order of HashName/ToDS; digest-type table; dnskeyWireFmt conformance and fill sites; private-key writer/reader field agreement; RSA size limits of decoder vs generator. Numeric equality of key tags/digests/hashes with the RFCs, key generation and validity arithmetic are not decided (values/cryptography).",
+      STATIC_NOTE, "abstract interpretation over total preorders (E6); SSA guards; table agreement")
+
 _pending = "rules for this property are designed (DESIGN.md §4) but not implemented yet; not claimed until they run"
-for p in ["C02","C03","C05","C06","C07","C09","C10","C11","C12","C13","C14","C15","C16","C17","C18"]:
+for p in ["C02","C03","C05","C06","C07","C09","C10","C11","C12","C13","C14","C15","C16","C18"]:
     na(p, _pending)
 na("C19", "every clause is an equality between index arithmetic on a runtime string and its label sequence; no pairing/ownership/ordering/table structure to decide statically (DESIGN.md §8)")
